@@ -108,6 +108,7 @@ def h07(c, U=3, R=1, other_market=False, suspensions=False, real_time_error=Fals
                 books.append(b)
                 state["k"] = k
                 state["books"][k] = b
+                delivered_b = False
                 with c.guard("update%d" % k):
                     if other_market and k > 0 and c.choose("other_market_update_before%d" % k, [False, True]):
                         # an update of another market of the same event, between t_{k-1} and t_k
@@ -120,11 +121,20 @@ def h07(c, U=3, R=1, other_market=False, suspensions=False, real_time_error=Fals
                             ob.runners[0].status = "WINNER"
                             c.cover("other-market-closed")
                         state["other_seen"] = True
-                        state["k"] = ("other", k)
-                        fl._process_market_books(events.MarketBookEvent([ob]))
-                        state["k"] = k
-                        c.cover("other-market-update")
-                    fl._process_market_books(events.MarketBookEvent([b]))
+                        if ob.status != "CLOSED" and c.choose("both_books_in_one_event%d" % k, [False, True]):
+                            # a stream file that holds several markets yields their books together: each book is processed at its own publish time
+                            state["k"] = k
+                            fl._process_market_books(events.MarketBookEvent([ob, b]))
+                            c.cover("other-market-update")
+                            c.cover("multi-book-event")
+                            delivered_b = True
+                        else:
+                            state["k"] = ("other", k)
+                            fl._process_market_books(events.MarketBookEvent([ob]))
+                            state["k"] = k
+                            c.cover("other-market-update")
+                    if not delivered_b:
+                        fl._process_market_books(events.MarketBookEvent([b]))
                 # observation point: end of update k
                 for r, kind in enumerate(reqs):
                     if r not in log["created"]:
@@ -198,6 +208,6 @@ HARNESSES = [
             requires=["run", "executed", "suspended-update"], outside=OUT, max_paths=(300000, 3000000), wall_s=(300, 3000)),
     Harness("H07-rt", h07, quick=dict(U=3, R=1, real_time_error=True), pattern="P3 with symbolic time", requires=["run", "executed"], outside=OUT),
     Harness("H07-2mkt", h07, quick=dict(U=3, R=1, other_market=True), thorough=dict(U=5, R=1, other_market=True), pattern="P3 with symbolic time",
-            requires=["run", "executed", "other-market-update", "other-market-closed"], outside=OUT, max_paths=(300000, 3000000), wall_s=(300, 3000)),
+            requires=["run", "executed", "other-market-update", "other-market-closed", "multi-book-event"], outside=OUT, max_paths=(300000, 3000000), wall_s=(300, 3000)),
 ]
 META = {"assumptions": ["publish times: integer milliseconds, strictly increasing, gaps 1 ms .. 10 min; latencies every 0.001 s value in [0, 5]; bet delay 0..12"]}
